@@ -308,13 +308,15 @@ Definition srread (d : doc) : res (sr_class * doc) :=
 (* ---- Key Object Selection ---------------------------------------------------- *)
 (* KeyObjectSelection.__init__: optional description TEXT item, then one
    IMAGE / COMPOSITE item per referenced object, all CONTAINS, flat *)
+Definition ko_ref_item (r : Z * Z * bool) : item :=
+  match r with (u, c, img) => Item (if img then IMAGE else COMPOSITE) 260753009 1 (Some (u, c)) [] [] end.
+
 Definition ko_content (title : Z) (descr : option Z) (refs : list (Z * Z * bool)) : res item :=
   match refs with
   | [] => Err "ValueError"
   | _ => Ok (Item CONTAINER title 0 None [(1, [2010])]          (* template_id='2010' *)
                ((match descr with Some _ => [Item TEXT 113012 1 None [] []] | None => [] end) ++
-                map (fun r : Z * Z * bool => match r with (u, c, img) =>
-                       Item (if img then IMAGE else COMPOSITE) 260753009 1 (Some (u, c)) [] [] end) refs))
+                map ko_ref_item refs))
   end.
 
 Definition ko_init (ev : list evd) (ts_ok : bool) (root : item) : res doc :=
@@ -335,6 +337,67 @@ Definition resolve_reference (d : doc) (u : Z) : res (Z * Z * Z) :=
   | [] => Err "ValueError"
   | l => match last l (0, 0, 0, 0) with (st, se, u', _) => Ok (st, se, u') end
   end.
+
+(* KeyObjectSelection.get_references(value_type, sop_class_uid): the IMAGE / COMPOSITE /
+   WAVEFORM children of the root item, optionally of one value type and of one referenced
+   SOP class; any other value type asked for is refused.  (An item of a reference value
+   type without ReferencedSOPSequence cannot be built with the item classes; it is
+   modelled as not matching a class filter.) *)
+Definition ref_vt (t : vt) : bool := vt_eqb t IMAGE || vt_eqb t COMPOSITE || vt_eqb t WAVEFORM.
+Definition cls_ok (cf : option Z) (it : item) : bool :=
+  match cf with
+  | None => true
+  | Some c => match i_ref it with Some uc => snd uc =? c | None => false end
+  end.
+Definition ko_get_references (vf : option vt) (cf : option Z) (root : item) : res (list item) :=
+  match vf with
+  | Some t => if ref_vt t
+              then Ok (filter (fun it => vt_eqb (i_vt it) t && cls_ok cf it) (i_kids root))
+              else Err "ValueError"
+  | None => Ok (filter (fun it => ref_vt (i_vt it) && cls_ok cf it) (i_kids root))
+  end.
+
+(* KeyObjectSelectionDocument.from_dataset (file = document value, premise W1): SOP class
+   check; the root item is REBUILT from ConceptNameCodeSequence, ContentSequence,
+   ContentTemplateSequence, ValueType and ContinuityOfContent (AttributeError when one is
+   absent); ContainerContentItem.from_dataset (value type) and
+   KeyObjectSelection.from_sequence (template 2010) check it; the reference table is rebuilt
+   from CurrentRequestedProcedureEvidenceSequence (AttributeError when absent). *)
+Definition ko_from_dataset (has_cs : bool) (d : doc) : res doc :=
+  if negb (d_cls d =? ko_code) then Err "ValueError"
+  else if negb has_cs then Err "AttributeError"
+  else match attr_get k_template (i_attrs (d_content d)) with
+       | None => Err "AttributeError"
+       | Some tl =>
+           if negb (vt_eqb (i_vt (d_content d)) CONTAINER) then Err "ValueError"
+           else match tl with
+                | [] => Err "IndexError"
+                | t :: _ =>
+                    if negb (t =? 2010) then Err "ValueError"
+                    else match d_current d with
+                         | [] => Err "AttributeError"
+                         | _ => Ok (set_content d (reroot (d_content d)))
+                         end
+                end
+       end.
+
+(* what the correspondence run does to a written KO document before parsing it:
+   0 nothing, 1 SOP class := Comprehensive SR, 2 template identifier := 2000,
+   3 ContentTemplateSequence deleted, 4 CurrentRequestedProcedureEvidenceSequence deleted,
+   5 ValueType := TEXT, 6 ContentSequence deleted; returns (has ContentSequence, document) *)
+Definition set_attrs (it : item) (a : attrs) : item :=
+  Item (i_vt it) (i_tag it) (i_rel it) (i_ref it) a (i_kids it).
+Definition ko_tamper (t : Z) (d : doc) : bool * doc :=
+  let c := d_content d in
+  if t =? 1 then (true, Doc 1 c (d_current d) (d_other d) (d_pred d) (d_complete d) (d_verified d) (d_final d) (d_observer d))
+  else if t =? 2 then (true, set_content d (set_attrs c (map (fun kv : Z * list Z =>
+                               if fst kv =? k_template then (fst kv, [2000]) else kv) (i_attrs c))))
+  else if t =? 3 then (true, set_content d (set_attrs c (filter (fun kv : Z * list Z =>
+                               negb (fst kv =? k_template)) (i_attrs c))))
+  else if t =? 4 then (true, Doc (d_cls d) c [] (d_other d) (d_pred d) (d_complete d) (d_verified d) (d_final d) (d_observer d))
+  else if t =? 5 then (true, set_content d (Item TEXT (i_tag c) (i_rel c) (i_ref c) (i_attrs c) (i_kids c)))
+  else if t =? 6 then (false, set_content d (Item (i_vt c) (i_tag c) (i_rel c) (i_ref c) (i_attrs c) []))
+  else (true, d).
 
 (* ---- boundary functions ------------------------------------------------------- *)
 Fixpoint item_val (it : item) : val :=
@@ -392,6 +455,17 @@ Definition run_ko (ev : list evd) (ts_ok : bool) (title : Z) (descr : option Z)
                      VL (map (fun u => vres (fun t => match t with (a, b, c) => VL [VZ a; VZ b; VZ c] end)
                                             (resolve_reference d u)) queries)])
        (bind (ko_content title descr refs) (ko_init ev ts_ok)).
+
+(* build a KO document, write it, (tamper,) KeyObjectSelectionDocument.from_dataset:
+   content, evidence, resolve_reference and get_references of the PARSED document *)
+Definition run_ko_parse (ev : list evd) (title : Z) (descr : option Z) (refs : list (Z * Z * bool))
+           (tamper : Z) (queries : list Z) (vf : option vt) (cf : option Z) : val :=
+  vres (fun d => VL [item_val (d_content d); refs_val (d_current d); refs_val (d_other d);
+                     VL (map (fun u => vres (fun t => match t with (a, b, c) => VL [VZ a; VZ b; VZ c] end)
+                                            (resolve_reference d u)) queries);
+                     vres (fun l => VL (map item_val l)) (ko_get_references vf cf (d_content d))])
+       (bind (bind (ko_content title descr refs) (ko_init ev true))
+             (fun d => ko_from_dataset (fst (ko_tamper tamper d)) (snd (ko_tamper tamper d)))).
 
 (* srread of a written KO document: unsupported SOP class *)
 Definition run_ko_srread (ev : list evd) (title : Z) (refs : list (Z * Z * bool)) : val :=
@@ -562,6 +636,15 @@ Definition run_segref (g : seg) (sn : Z) (fns : option (list Z)) : val :=
   vres (fun r => VL [VZ (r_seg r); VZ (r_segment r); vopt vz_list (r_frames r);
                      VL (map src_val (r_sources r)); vopt VZ (r_series r)])
        (rs_from_segmentation g sn fns).
+(* the same on the abstraction EXTRACTED from a real highdicom Segmentation (instance uids
+   numbered by the harness; the segmentation's own uid is not compared) *)
+Definition run_segref_real (g : seg) (sn : Z) (fns : option (list Z)) : val :=
+  vres (fun r => VL [VZ (r_segment r); vopt vz_list (r_frames r);
+                     VL (map src_val (r_sources r)); vopt VZ (r_series r)])
+       (rs_from_segmentation g sn fns).
+Definition run_segframe_real (g : seg) (fa : fn_arg) (sn : option Z) : val :=
+  vres (fun r => VL [vz_list (q_frames r); VZ (q_segment r); src_val (q_src r)])
+       (rsf_from_segmentation g fa sn).
 Definition run_segframe (g : seg) (fa : fn_arg) (sn : option Z) : val :=
   vres (fun r => VL [VZ (q_seg r); vz_list (q_frames r); VZ (q_segment r); src_val (q_src r)])
        (rsf_from_segmentation g fa sn).
